@@ -378,6 +378,7 @@ def turn_cycles(body: bytes) -> dict[str, Any]:
     streams = parse_ipc_streams(body)
     st = streams[-1]
     cyc: list[tuple[int, int, int]] = []
+    ptr: list[bool] = []
     cur = None
     sentinel = False
     error = False
@@ -402,8 +403,9 @@ def turn_cycles(body: bytes) -> dict[str, Any]:
         if "batch" in m and m["rows"] > 0:
             k = m["batch"].column(0)[0].as_py()
         cyc.append((cur, m["end"], k))
+        ptr.append(m["rows"] == 0 and "vgi_rpc.location" in md)
         cur = m["end"]
-    return {"streams": len(streams), "data": cyc, "sentinel": sentinel, "error": error, "len": len(body),
+    return {"streams": len(streams), "data": cyc, "ptr": ptr, "sentinel": sentinel, "error": error, "len": len(body),
             "data_stream_start": st["start"]}
 
 
@@ -435,3 +437,68 @@ def judge_turn(entry: dict[str, Any], cap: int | None) -> dict[str, Any]:
             f"{len(entry['body']) - cap - tail_plain} bytes",
         )
     return res
+
+
+# ------------------------------------------------------------------------------------------ owned entropy
+
+
+class _Shim:
+    """Module stand-in: overrides a few attributes, passes everything else through to the real module."""
+
+    def __init__(self, real: Any, **over: Any) -> None:
+        self.__dict__["_real"] = real
+        self.__dict__.update(over)
+
+    def __getattr__(self, n: str) -> Any:
+        return getattr(self.__dict__["_real"], n)
+
+
+class pinned_entropy:  # noqa: N801
+    """Make HTTP stream tokens byte-for-byte reproducible for the duration of the block.
+
+    The sealed tokens embed ``os.urandom`` call ids, a ``uuid4`` stream id and ``time.time()`` and are zstd-compressed
+    before sealing, so their *length* (and with it the framed size of every response that carries one) varies by a
+    few bytes from run to run.  Size-boundary checks need the same call to have the same size twice, so the three
+    sources are rebound — only inside ``vgi_rpc.http.server._state_token`` / ``_app_stream`` — to counter-based
+    deterministic values, and so is the AEAD nonce source in ``vgi_rpc.crypto`` (a sealed token travels inside
+    payloads that get compressed).  Token contents are never compared by any check.
+    """
+
+    T0 = 1_700_000_000.0
+
+    def __enter__(self) -> "pinned_entropy":
+        import os as _os
+        import time as _time
+        import uuid as _uuid
+
+        import vgi_rpc.http.server._app_stream as AS
+        import vgi_rpc.http.server._state_token as ST
+
+        import vgi_rpc.crypto as CR
+
+        self._saved = [(ST, "os", ST.os), (ST, "time", ST.time), (AS, "uuid", AS.uuid), (AS, "time", AS.time), (CR, "os", CR.os)]
+        n = [0]
+
+        def urandom(k: int) -> bytes:
+            n[0] += 1
+            out = b""
+            c = 0
+            while len(out) < k:
+                out += hashlib.sha256(f"pinned:{n[0]}:{c}".encode()).digest()
+                c += 1
+            return out[:k]
+
+        def uuid4() -> Any:
+            n[0] += 1
+            return _uuid.UUID(bytes=hashlib.sha256(f"uuid:{n[0]}".encode()).digest()[:16], version=4)
+
+        ST.os = _Shim(_os, urandom=urandom)  # type: ignore[assignment]
+        CR.os = _Shim(_os, urandom=urandom)  # type: ignore[assignment]  (AEAD nonce: counter-derived, never repeated in a block)
+        ST.time = _Shim(_time, time=lambda: self.T0)  # type: ignore[assignment]
+        AS.uuid = _Shim(_uuid, uuid4=uuid4)  # type: ignore[assignment]
+        AS.time = _Shim(_time, time=lambda: self.T0)  # type: ignore[assignment]
+        return self
+
+    def __exit__(self, *a: Any) -> None:
+        for mod, name, val in self._saved:
+            setattr(mod, name, val)
